@@ -37,7 +37,7 @@ PROPS = {
 _lock = threading.Lock()
 
 
-def replay_parallel(ctx, binary, bs, procs, opts=None, timeout=6000):
+def replay_parallel(ctx, binary, bs, procs, opts=None, timeout=5000):
     """One driver process per chunk (one node with push tasks per process: the settle detector
     reads the process's goroutine dump), merged into ctx under a lock."""
     if not bs:
@@ -68,6 +68,31 @@ def replay_parallel(ctx, binary, bs, procs, opts=None, timeout=6000):
     return results
 
 
+def replay_selftest(ctx, binary, bs):
+    """Anti-vacuity of binding A: one behaviour with one predicted stored-last-sequence falsified must disagree."""
+    for beh in bs:
+        steps = copy.deepcopy(beh['steps'])
+        idx = [i for i, s in enumerate(steps) if s.get('settled') and s.get('op') == 'Return' and s.get('what') == 'persist']
+        if not idx:
+            continue
+        st = steps[idx[-1]]
+        st['chk']['last'] = [x + 1 for x in st['chk']['last']]
+        sub = copy.copy(ctx)
+        sub.mismatches, sub.samples, sub.checker_cmds = [], [], []
+        sub.evaluations = sub.traces = sub.nontrivial = 0
+        save = vlib.REPLAYS
+        vlib.REPLAYS = os.path.join(ctx.scratch, 'selftest-replays')
+        try:
+            sub.replay(binary, [dict(beh, id=beh['id'] + '-selftest', steps=steps)], par=1, timeout=3000, count=False, name='selftest.ndjson')
+        finally:
+            vlib.REPLAYS = save
+        if not sub.mismatches:
+            raise vlib.Broken('binding self-test failed: a falsified stored last sequence was not noticed by the replay')
+        ctx.extra['selftest_falsified_replay_rejected'] = True
+        return
+    ctx.notes.append('replay self-test: no behaviour with a settled persist step')
+
+
 def run(ctx):
     q = ctx.tier == 'quick'
     ctx.rule = ('behaviours = TLC simulation of Push.tla in GenMode (harness steps AddBlock / Reorg / Register / Release / Deliver '
@@ -78,9 +103,14 @@ def run(ctx):
     ctx.assumptions += ['serial API calls', 'graceful stops only', 'deactivation writes atomic',
                         'HTTP stack / LevelDB trusted', 'TLC bounds: <=2 subscribers, log<=6, <=4 failures, <=4 registrations, 1 restart']
     # 1. exhaustive: the repaired mechanism satisfies the property ...
-    ctx.tlc_mc('Push_MC', 'Push_MCq.cfg' if q else 'Push_MCt.cfg', workers=4, timeout=7200, coverage=not q)
+    r = ctx.tlc_mc('Push_MC', 'Push_MCq.cfg' if q else 'Push_MCt.cfg', workers=4, timeout=14400, coverage=not q)
     if not q:
-        ctx.tlc_mc('Push_MC', 'Push_MCr.cfg', workers=4, timeout=7200)
+        # AddBlock / Reorg are the GenMode forms of AppendSeq + NotifySeq and cannot fire here
+        zeros = [z for z in r.get('zero_actions', []) if not any(a in z for a in ('<AddBlock ', '<Reorg '))]
+        if zeros:
+            raise vlib.Broken('vacuous exhaustive run, actions never taken: %s' % zeros)
+        ctx.tlc_mc('Push_MC', 'Push_MCr.cfg', workers=4, timeout=14400)
+        ctx.tlc_mc('Push_MC', 'Push_MC2.cfg', workers=4, timeout=14400)
     # ... and the model can tell: the as-found mechanisms are refuted (anti-vacuity of the invariants)
     for cfg in ('Push_MCrace.cfg', 'Push_MCzero.cfg'):
         r = ctx.tlc_mc('Push_MC', cfg, workers=2, timeout=3600, expect_violation=True, count=False)
@@ -99,10 +129,12 @@ def run(ctx):
     else:
         bs += ctx.tlc_sim('Push_MC', 'Push_GenRcpt.cfg', num=30, depth=45, keep_init=True, timeout=3600, seed=ctx.seed + 2000003)
     replay_parallel(ctx, b, bs, procs)
+    replay_selftest(ctx, b, bs)
     # 3. binding B
     for salt in range(1 if q else 4):
-        ctx.validate_recording(b, 'Push_Trace', 'Push_Trace.cfg', opts=dict(n=12 if q else 60, salt=salt), dfs=True,
-                               timeout=7200, selftest=(salt == 0))
+        ctx.validate_recording(b, 'Push_Trace', 'Push_Trace.cfg',
+                               opts=dict(n=12 if q else 40, salt=salt, quiet=3 if salt == 3 else 2), dfs=True,
+                               timeout=14400, selftest=(salt == 0))
 
 
 import vlib  # noqa: E402
